@@ -12,7 +12,7 @@ import threading
 
 from vlib import Inconclusive, canon
 
-ARITY = {"add": 2, "sub": 2, "sub3": 3, "neg": 1, "pair": 2, "first": 1, "second": 1, "apply1": 2,
+ARITY = {"add": 2, "sub": 2, "sub3": 3, "neg": 1, "pair": 2, "first": 1, "second": 1, "apply1": 2, "applyto": 2,
          "keyed": 1, "tagged": 2, "typed": 2, "and": 2, "or": 2}
 VARIADIC = {"call"}
 
@@ -261,6 +261,23 @@ class RandGen:
             return Call(r.choice(["first", "second"]), self.gen("pair", scope, d - 1))
         if x < 0.6:      # pipeline into a partial application:  x | sub 5
             return Call(Call("sub", self.gen("int", scope, d - 1)), self.gen("int", scope, d - 1))
+        if d >= 2 and x < 0.68:
+            # a function-maker called twice, the first product used after the second was made:
+            #   call {m -> add (call (call m i) j) (call (call m i') j')} {a -> <fn1 using a>}
+            m = r.choice(["m", "n"])
+            if m not in scope:
+                a = self.names(1)[0]
+                inner = dict(scope)
+                inner[a] = "int"
+                maker = Lam([a], self.gen_fn(1, inner, d - 2))
+                use = lambda: Call("call", Call("call", Sym(m), self.lit()), self.lit())
+                first, second = use(), use()
+                body = Call(r.choice(["add", "sub"]), first, second)
+                if r.random() < 0.5:   # both made before either is used
+                    p, q = "p", "q"
+                    body = Call("call", Lam([p, q], Call("add", Call("call", Sym(p), self.lit()), Call("call", Sym(q), self.lit()))),
+                                Call("call", Sym(m), self.lit()), Call("call", Sym(m), self.lit()))
+                return Call("call", Lam([m], body), maker)
         n = r.choice([1, 1, 2, 2, 3, 0])
         f = self.gen_fn(n, scope, d - 1)
         return self.apply(f, [self.gen("int", scope, d - 1) for _ in range(n)])
@@ -272,6 +289,11 @@ class RandGen:
         natives = {1: ["neg"], 2: ["sub", "add"], 3: ["sub3"]}.get(n, [])
         if natives and x < 0.15:
             return Sym(r.choice(natives))
+        if n == 1 and d > 0 and x < 0.08:     # a native partial application that holds a closure: applyto {c -> ..}
+            names = self.names(1)
+            inner = dict(scope)
+            inner[names[0]] = "int"
+            return Call("applyto", Lam(names, self.gen("int", inner, d - 1)))
         if n in (1, 2) and x < 0.35:      # partial application of a library function
             name = "sub" if n == 1 else "sub3"
             if n == 1 and r.random() < 0.4:
@@ -374,4 +396,15 @@ def named_programs():
         # escaping closures: the same lambda literal activated twice, closure of the first activation called later (U1)
         Call("call", Lam(["a"], Call("pair", Call("call", a, Lit(1)), Call("call", a, Lit(2)))),
              Lam(["b"], Lam(["a"], Call("sub", a, b)))),
+        # native partial applications holding a closure, made twice by the same maker and completed afterwards:
+        # each reads ITS OWN `a` through the snapshot it took when it was made
+        Call("call", Lam(["m"], Call("call", Lam(["p", "q"], Call("add", Call("call", Sym("p"), Lit(1)), Call("call", Sym("q"), Lit(2)))),
+                                     Call("call", Sym("m"), Lit(3)), Call("call", Sym("m"), Lit(4)))),
+             Lam(["a"], Call("applyto", Lam(["c"], Call("sub", Call("add", Sym("c"), Sym("c")), a))))),
+        Call("call", Lam(["m"], Call("sub", Call("call", Call("call", Sym("m"), Lit(1)), Lit(2)),
+                                     Call("call", Call("call", Sym("m"), Lit(3)), Lit(4)))),
+             Lam(["a"], Call("applyto", Lam(["c"], Call("sub3", Sym("c"), a, Sym("c")))))),
+        Call("call", Lam(["m"], Call("call", Lam(["p", "q"], Call("pair", Call("call", Sym("q"), Lit(1)), Call("call", Sym("p"), Lit(2)))),
+                                     Call("call", Sym("m"), Lit(3)), Call("call", Sym("m"), Lit(4)))),
+             Lam(["a"], Call("sub3", a, Lit(5)))),
     ]
